@@ -352,6 +352,25 @@ func runDecode(c *Ctx) {
 		doc := fmt.Sprintf(pos, args...)
 		emit(decodeCase{Kind: "shape", Doc: hx(doc), Inc: hx(decInc), Note: fmt.Sprintf("pos %d shape %d", pi, si)})
 	}
+	// (a') include positions × include-shaped values: always exhaustive (a random draw of the whole
+	// product reaches these pairs too rarely in the quick tier)
+	if n != total {
+		for pi, pos := range decPositions {
+			if !strings.Contains(pos, "includes") {
+				continue
+			}
+			for si, sh := range decShapes {
+				if !strings.Contains(sh, "taskfile") && !strings.Contains(sh, "default") {
+					continue
+				}
+				args := make([]any, strings.Count(pos, "%s"))
+				for i := range args {
+					args[i] = sh
+				}
+				emit(decodeCase{Kind: "shape", Doc: hx(fmt.Sprintf(pos, args...)), Inc: hx(decInc), Note: fmt.Sprintf("pos %d shape %d (include pair)", pi, si)})
+			}
+		}
+	}
 	// (b) mutated real Taskfiles
 	files := corpusFiles()
 	m := c.Pick(500, 6000)
